@@ -106,7 +106,18 @@ type Statement struct {
 	lookupOptions             storage.LookupOptions
 	filters                   []*FilterClause
 	workingFilter             *FilterClause
+	lastNopTokens             [nopHooks]*lexer.Token
 }
+
+// Indexes of the hooks that remember the last modifier token they have seen
+// (AS, TYPE, ID, AT, ...) until the binding it applies to arrives.
+const (
+	nopSubject = iota
+	nopPredicate
+	nopObject
+	nopProjection
+	nopHooks
+)
 
 // GraphClause represents a clause of a graph pattern in a where clause.
 type GraphClause struct {
